@@ -6,7 +6,7 @@ oracles, to the extracted Gallina model (coq/Geom/GeomModel.v via RunC11.v); all
 exactly.  On top of that the property's own relations are evaluated on the implementation output (index
 bijection, pair symmetry, probe points in the geometrically right domain, conductivities by name)."""
 import os, sys, json, math, shutil
-import core, models, geomdesc as gd
+import core, models, geomdesc as gd, bounded
 
 PROP = "C11"
 
@@ -513,7 +513,7 @@ def main(replay=None):
     if lexcases:
         _, lio, _ = core.run_harness(hb, [c["hline"] for c in lexcases], ck.workdir, timeout=90, tag="lex", max_restarts=3)
         for c, m_, i_ in zip(lexcases, lo[len(cases):], lio):
-            mi, mf = core.fparse(m_); ii, if_ = core.fparse(i_)
+            mi, mf = core.fparse(m_); ii, if_ = (None, None) if i_.startswith("TIMEOUT") else core.fparse(i_)
             lexstat[c["tag"]] = lexstat.get(c["tag"], []) + [mi[0] if mi else None]
             if ii is None or mi != ii or len(mf) != len(if_) or not all(feq(a, b) for a, b in zip(mf, if_)):
                 ck.violation("lexer %s" % c["tag"], "character-level reader model and library disagree on a textual variant (%s of a %s case): model %s, library %s"
@@ -536,13 +536,16 @@ def main(replay=None):
                              dict(kind="data", path="data/HeadNNb1/HeadNNb1.geom"))
         else:
             ck.violation("data/HeadNNb1 does not load", "the suite's HeadNNb1 geometry no longer loads: %s" % o_[0][:100], dict(kind="data", path="data/HeadNNb1/HeadNNb1.geom"))
-    rc_, io, err = core.run_harness(hb, [c["hline"] for c in cases], ck.workdir, timeout=900)
+    rc_, io, err, tnotes = bounded.run_harness_bounded(hb, [c["hline"] for c in cases], ck.workdir, tier=ck.tier)
+    ck.notes += tnotes
     nontriv = set(); mism = 0; nprobe = 0; errs = 0; nlam = 0
     for c, m_, i_ in zip(cases, mo, io):
-        mi, mf = core.fparse(m_); ii, if_ = core.fparse(i_)
+        mi, mf = core.fparse(m_); ii, if_ = (None, None) if i_.startswith("TIMEOUT") else core.fparse(i_)
         rep = dict(kind="correspondence", cases=[dict(orig=c["orig"], tokens=c["tokens"], style=c["style"], old=c["old"], has_cond=c["has_cond"], tag=c["tag"], probes=c["probes"],
                                                      cond_lines=c["cond_lines"], cond_header=c["cond_header"])],
                    replay_cmd="./check C11 --replay <this file>")
+        if i_.startswith("TIMEOUT"):
+            ck.violation("time limit loading %s" % c["tag"], "time limit: the implementation does not terminate (%s) while loading a generated description (%s)" % (i_, c["tag"]), rep); continue
         if ii is None:
             ck.violation("crash loading %s" % c["tag"], "the library crashed while loading a generated description (%s): %s" % (c["tag"], i_), rep); continue
         if mi and mi[0] != 0: errs += 1
